@@ -176,9 +176,8 @@ def gate(files):
 
 
 def make_targets(targets, jobs=16, timeout=3000):
-    regen_coqproject()
-    cmd = ["flock", LOCK, "timeout", str(timeout), "make", "-j%d" % jobs] + targets
-    return sh(cmd, cwd=COQ, timeout=timeout + 600)
+    cmd = ["flock", LOCK, "sh", "-c", "./regen.sh && exec timeout %d make -j%d %s" % (timeout, jobs, " ".join(targets))]
+    return sh(cmd, cwd=COQ, timeout=timeout + 1800)
 
 
 def parse_assumptions(out):
